@@ -185,7 +185,11 @@ Definition scan_step (fmt data : list Z) (s : pstate) : res (list Z * option (li
           | None => OK (f2, None)
           end
         else if (c =? 100) || (c =? 101) then
-          match parse_int32 data 2 (rng src_parse_range_d 0) (rng src_parse_range_d 1) with
+          (* %e after a blank: format() renders a one-digit %e as a blank and the digit
+             (fmt[-1] == 'e' && *data == ' '  =>  ParseInt(data + 1, 1, 1, 9, &tm.tm_mday)) *)
+          match (if (c =? 101) && (match data with x :: _ => x =? 32 | [] => false end)
+                 then parse_int32 (tl data) 1 1 9
+                 else parse_int32 data 2 (rng src_parse_range_d 0) (rng src_parse_range_d 1)) with
           | Some (v, d1) => OK (f2, Some (d1, set_week (set_tm s (tm_with (ps_tm s) 3 v)) (-1) (ps_week_start s)))
           | None => OK (f2, None)
           end
